@@ -24,6 +24,10 @@ func chainOperands() []Expr {
 		Path{Steps: []*Step{{Axis: "child", Abbrev: "child", Test: Test{Kind: "name", Local: "b"}}, {Axis: "child", Abbrev: "child", Test: Test{Kind: "name", Local: "c"}}}},
 		child("a-b"), Path{Steps: []*Step{SelfDot()}}, Path{Abs: true, Steps: []*Step{DSlash(), {Axis: "child", Abbrev: "child", Test: Test{Kind: "name", Local: "c"}}}},
 		Path{Steps: []*Step{{Axis: "child", Abbrev: "child", Test: Test{Kind: "text"}}}},
+		xref.Num{Lex: ".5"},
+		Path{Steps: []*Step{{Axis: "child", Abbrev: "child", Test: Test{Kind: "name", Prefix: "p", Local: "a"}}, {Axis: "child", Abbrev: "child", Test: Test{Kind: "name", Local: "b"}}}},
+		Path{Steps: []*Step{{Axis: "attribute", Abbrev: "@", Test: Test{Kind: "name", Prefix: "q", Local: "k"}}}},
+		Path{Steps: []*Step{{Axis: "parent", Test: Test{Kind: "node"}, Abbrev: ".."}, {Axis: "child", Abbrev: "child", Test: Test{Kind: "name", Prefix: "p", Local: "div"}}}},
 	}
 }
 
@@ -213,7 +217,7 @@ func (g *G) TokExpr(d int, noRound bool) string {
 	case 0:
 		return g.Pick("0", "1", "2", "2.5", "10", "0.5", "3")
 	case 1:
-		return "'" + g.Pick("", "a", "10", "x", "(", "a*", "[", "$1", "b", " ", "é", "aé", "中", "éé中", "ab", "abc") + "'"
+		return "'" + g.Pick("", "a", "10", "x", "(", "a*", "[", "$1", "b", " ", "é", "aé", "中", "éé中", "ab", "abc", "a\u00a0", "x\u3000", "b\v", " a\f") + "'"
 	case 2, 3:
 		return g.tokPath(d, noRound)
 	case 4:
